@@ -146,3 +146,9 @@ Inductive nums_clean : jvalue -> Prop :=
 | nc_str : forall s, nums_clean (JStr s)
 | nc_arr : forall l, Forall nums_clean l -> nums_clean (JArr l)
 | nc_obj : forall m, Forall (fun kv => nums_clean (snd kv)) m -> nums_clean (JObj m).
+
+(* a NaN or an infinity somewhere in the value (Python's repr of them) *)
+Inductive nonfinite : jvalue -> Prop :=
+| nf_here : forall r, r = u "nan" \/ r = u "inf" \/ r = u "-inf" -> nonfinite (JFloat r)
+| nf_arr : forall l x, In x l -> nonfinite x -> nonfinite (JArr l)
+| nf_obj : forall m kv, In kv m -> nonfinite (snd kv) -> nonfinite (JObj m).
